@@ -1,5 +1,6 @@
 import AslModel.SockServer
 import AslProofs.SockServer
+import Gen.SockGen
 /-!
 # C14 — SocketServer serves each accepted connection exactly once and stops cleanly
 
@@ -10,6 +11,12 @@ accept-loop reads of `_requestStop` that still see the old value.
 -/
 namespace C14
 open AslModel.SockServer AslProofs.SockServer
+
+/-- **G obligation.**  The two facts the model takes from `src/SocketServer.cpp` (regenerated on every run): the accept
+    loop skips a failed `accept()` before it counts the connection, and the destructor joins the accept thread before it
+    frees it.  Every theorem below is stated for `init n q`, whose defaults are exactly these two facts: -/
+theorem model_parameters_from_source (n : Nat) (q : Bool) :
+    init n q Gen.Sock.joins Gen.Sock.skipsFailed = init n q := by rfl
 
 /-- **serve_exactly_once.**  In every reachable state and for every connection: `serve()` has been
     entered at most once, it is entered only for an accepted and counted connection, it has returned
